@@ -167,7 +167,9 @@ META.update({
 
 CLIENT_NOTE = (PROOF_NOTE + "L1 = atomic-operation model: each event (Start, datagram, tick, Close) runs to completion. L2 "
                "(Model/ClientL2.lean) adds three suspension points (Start's first Write, a retransmission's "
-               "ClientAgent.Start and its Write) with concrete theorems and the same schedules driven on the real client; "
+               "ClientAgent.Start and its Write) with the same schedules driven on the real client; at most once / never "
+               "unstarted (l2_handler_at_most_once, run2_spec) and <= n+1 writes per Start (l2_writes_at_most_n_plus_1) are "
+               "proved for ALL L2 histories, the known findings F12/F14 are concrete L2 theorems; "
                "the L1 theorems are the L2 theorems for connections and agents that do not block (run2_l1). Not carried: "
                "finer interleavings, the race detector's verdict, goroutine exit, the default ticker collector. ")
 META.update({
